@@ -16,7 +16,8 @@ Inductive op :=
 | OpRequest (name : string) (r : request) (save : bool)
 | OpWhitelist (wl : list string)
 | OpCV (name : string) (e : expr)
-| OpFinalize.
+| OpFinalize
+| OpSetDefaults (d : list (string * Q)).
 
 Definition apply_op (m : model) (o : op) : result model :=
   match o with
@@ -30,6 +31,7 @@ Definition apply_op (m : model) (o : op) : result model :=
   | OpWhitelist wl => Ok (set_whitelist m wl)
   | OpCV name e => add_computed_value m name e
   | OpFinalize => finalize m
+  | OpSetDefaults d => Ok (set_default_parameters m d)
   end.
 
 (* run the ops; on the first error report its position (0 = the constructor) *)
